@@ -23,15 +23,16 @@ CONSTANTS
   MaxTries = %(tries)d
   CutBudget = %(cuts)d
   CaptureRW = %(capture)s
+  OutOfSync = "%(oos)s"
 INVARIANTS %(invs)s
 PROPERTIES AllDone
 CHECK_DEADLOCK FALSE
 """
 
 
-def bcfg(callers=3, bs=2, tries=2, cuts=0, capture=False, invs="NoCrash OneOutcome"):
+def bcfg(callers=3, bs=2, tries=2, cuts=0, capture=False, invs="NoCrash OneOutcome", oos="recover"):
     return B_CFG % dict(callers=", ".join('"%s"' % c for c in "abcd"[:callers]), bs=bs, tries=tries, cuts=cuts,
-                        capture="TRUE" if capture else "FALSE", invs=invs)
+                        capture="TRUE" if capture else "FALSE", invs=invs, oos=oos)
 
 
 def run_pool(run, exe, mode, grid, callers, length, seed):
@@ -132,16 +133,26 @@ def check_c06(prop, tier, seed):
 def check_c13(prop, tier, seed):
     run = Run(prop, tier, seed)
     quick = tier == "quick"
-    # the design has a known flaw (see DESIGN.md, finding "batch written onto the re-established connection"):
-    # with cuts NoCrash is violated in the model; everything else must hold
-    for name, kw in [("2 callers, 1 cut", dict(callers=2, cuts=1)), ("3 callers, 1 cut", dict(callers=3, cuts=1))] + \
-            ([] if quick else [("2 callers, 2 cuts", dict(callers=2, cuts=2)), ("3 callers, 2 cuts, batch size 3", dict(callers=3, cuts=2, bs=3))]):
-        res = run.tlc("Batched", bcfg(invs="OneOutcome", **kw).replace("PROPERTIES AllDone\n", ""), timeout=1800)
+    for name, kw in [("2 callers, 1 cut", dict(callers=2, cuts=1)), ("2 callers, 2 cuts, 3 tries", dict(callers=2, cuts=2, tries=3))] + \
+            ([] if quick else [("3 callers, 1 cut", dict(callers=3, cuts=1)), ("3 callers, 2 cuts, batch size 3", dict(callers=3, cuts=2, bs=3)), ("2 callers, 3 cuts", dict(callers=2, cuts=3, tries=3))]):
+        res = run.tlc("Batched", bcfg(**kw), timeout=2400)
         if res.violated:
             raise Infra("Batched.tla (%s) violates %s" % (name, res.violated))
-        run.log("design %-32s %d distinct states %.0fs (OneOutcome)" % (name, res.distinct, res.wall))
-    res = run.tlc("Batched", bcfg(callers=2, cuts=1), timeout=600, expect_violation=True, count=False)
-    run.extra["design_finding"] = ("with one connection cut TLC reaches the reader's panic(\"Batch out of sync\"): %s" % res.violated) if res.violated else "NoCrash holds (unexpected)"
+        run.log("design %-32s %d distinct states %.0fs (NoCrash, OneOutcome, AllDone)" % (name, res.distinct, res.wall))
+    # negative control = the defect that was repaired: a reader that panics on an unknown opaque
+    res = run.tlc("Batched", bcfg(callers=2, cuts=1, oos="panic"), timeout=600, expect_violation=True, count=False)
+    if not res.violated:
+        raise Infra("negative control failed: with OutOfSync = panic and one cut TLC should reach the crash")
+    run.extra["negative_control"] = "OutOfSync = \"panic\": TLC reaches the reader's panic after one cut (%s)" % res.violated
+    # the TLC counterexample replayed on the real pool through the verif hooks
+    rp = run.run_vh("pool-replay", ["-out", run.path("replay.json")])
+    rr = json.load(open(run.path("replay.json")))
+    run.extra["counterexample_replay"] = {"exit": rr["exit"], "panic_out_of_sync": rr["panic_out_of_sync"], "steps": rr["steps"]}
+    run.traces += 1
+    if rr["panic_out_of_sync"] or rr["exit"] != 0:
+        run.candidate("PoolCrash", "replaying TLC's counterexample (batch handed off, connection cut, reconnect, abandoned batch written onto the new connection) ended the process with status %s: %s" % (
+            rr["exit"], " | ".join(rr["steps"][-4:]) + " | " + rr["tail"][-300:].replace("\n", " ")), sig={"mkind": "PoolCrash", "how": "tlc-counterexample"}, detail=rr,
+            replay={"driver": "pool-replay"})
     pl = OrcaPipeline(run, ["ReplyOK", "RefEq"])
     exe = run.build_harness()
     grid = [(1, 50), (2, 250), (10, 250)] if quick else [(b, d) for b in (1, 2, 3, 10) for d in (50, 250, 5000)]
